@@ -8,7 +8,7 @@ CONT = "Coq invariants over every event list accepted by the container/heap-mana
 CLAIMED = {
  "C03": (CONT, "Acceptor checks every frame's content against the model (rows carry the bar's snapshot at render time); monitor: last frame shows every remaining bar in its final state, dropped bars absent, no output after Wait. Theorems in Props/C03.v (no output after Wait for every continuation; rows carry the render snapshot; cancelled only after a terminal frame; every bar once; removed bars never drawn again; with auto refresh the container returns only after a cycle that ended after done). Defect D9 (a bar cancelled while its actor is busy drawn running in the last frame) was found by a directed hold/release witness and is fixed in /repo.", "0.3 (D9), 0.7, 7 (C03)"),
  "C04": (CONT, "Theorems in Props/C04.v over the line terminal Term.v: every frame replaces exactly the live rows of the one before, cursor-up = live rows, rows <= height, nothing before the delay ends, redraw exact on a window with a spare row (and refuted without), render keeps height-1 rows (constant re-read from the source). Tie: acceptor's exact frame prediction + line-level replay monitor + the pty family (real pseudo terminal 4-11 rows, bytes replayed on a VT of that size with scrollback). Defect D6 found by the pty family is fixed in /repo.", "0.3 (D6), 0.7, 7 (C04)"),
- "C05": (CONT, "Theorems Props/C05.v: a bar is in exactly one place or gone for good (NoDup over heap/queue/pushes/popped/parked/retired) for every accepted trace; a frame's bars are the heap at that cycle's iteration; requests are received in the order sent; every heap request is one blocking send (re-read from the source). Monitor: no bar twice, none vanishing and returning, bars present unless they left legitimately.", "0.3 (D5), 0.7, 7 (C05)"),
+ "C05": (CONT, "Theorems Props/C05.v: a bar is in exactly one place or gone for good (NoDup over heap/queue/pushes/popped/parked/retired) for every accepted trace; every bar ever added is in exactly one of them (conservation: a step moves bars, loses none); when a cycle's ordered iteration begins nothing is in flight, so every bar that is not parked behind another and has not left for good is in the heap of that and of every later iteration; a frame's bars are the heap at that cycle's iteration; requests are received in the order sent; every heap request is one blocking send (re-read from the source). Monitor: no bar twice, none vanishing and returning, bars present unless they left legitimately.", "0.3 (D5), 0.7, 7 (C05)"),
  "C06": (CONT, "Theorems Props/C06.v: pops of a clean cycle are in non-increasing priority, flush order = pop order, immediate/lazy fix semantics, every iteration restores order; the priority queue itself (priority_queue.go under container/heap, PQueue.v) keeps heap order, multiset and index fields in every run, Pop returns a maximum, Fix restores order, tied to the code by the differential pq family (exact slice order incl. ties). Monitor on HM_POP priorities, row order and priority changes reaching the heap.", "7 (C06)"),
  "C07": ("Coq theorems (termination of the fill loops for every component width incl. zero; exact width of the bar body; Format reports its true width for every wrapper tree; truncation; row width <= terminal width for every decorator list) + differential correspondence of the extracted model on direct Fill calls and whole rows + width/UTF-8/termination monitor",
          "Theorems in coq/Props/C07.v over Filler.v/Decor.v for all widths, styles and int64 progress values; tie: 2500+ Fill calls and rows per quick run classified rune by rune and measured with go-runewidth.",
@@ -29,7 +29,7 @@ CLAIMED = {
  "C15": ("fault injection at k-th Fill / extender call / output Write on hooked scenarios + monitor (error reported once, no frame afterwards, Wait returns, no hang, no leak); width-rendezvous theorems (Sync.v) for the mid-sync case",
          "Theorems in Props/C15.v over the acceptor: the error latches, cancels and no cycle begins again; no further frame in any continuation; reported at most once; the failing cycle is drained; width sync cannot wedge. Tie: faults family (k-th Fill / extender / Write fails; half perturbed; a second manual refresh pending during the failing cycle) replayed by the model + monitor (error line exactly once, no frame afterwards, Wait returns, no leak). Defect D8 is fixed in /repo.", "0.3 (D8), 0.7, 7 (C15)"),
  "C16": (CONT, "Theorems in Props/C16.v: once the container goroutine has returned, the heap manager was ended and every actor has exited, only answers to client calls are possible, for ever (Dead states); each stop is final; the `go` statements of the library are exactly the 13 of GenChecks.expected_spawns and every service loop watches a done channel (tables regenerated from the source on every run). Tie: goroutine probe (runtime.Stack) after every scenario of the frames, sched, faults and late families.", "0.7, 7 (C16)"),
- "C17": (CONT, "Theorems in Props/C17.v: a parked bar is in none of the places rows are drawn from; it stays parked until the flush of the predecessor's shutdown-1 frame and no other Add disturbs it; that flush releases EVERY bar parked behind the predecessor (any number), in order, with the predecessor's priority, pushed with sync, and retires the predecessor; nobody is parked behind a released bar (invariant over all accepted traces); a bar queued after a released bar is pushed at once with the priority the predecessor had at its release. Tie: acceptor models queueBars / relieved / lastPriority; monitor on frames (hidden while parked, in the next cycle after the hand-over or after a late Add, with the predecessor's priority, predecessor not drawn again); generator creates successors before and after the hand-over, several per predecessor, chains. Defects D7a (late successor) and D7b (second successor) were found by directed witnesses, are fixed in /repo (b0086b9) and their witnesses run first from corpus/C17.", "0.3 (D7), 0.7, 7 (C17)"),
+ "C17": (CONT, "Theorems in Props/C17.v: a parked bar is in none of the places rows are drawn from; it stays parked until the flush of the predecessor's shutdown-1 frame and no other Add disturbs it; that flush releases EVERY bar parked behind the predecessor (any number), in order, with the predecessor's priority, pushed with sync, and retires the predecessor; nobody is parked behind a released bar (invariant over all accepted traces); a bar queued after a released bar is pushed at once with the priority the predecessor had at its release; a bar that is no longer parked is in the heap of every ordered iteration that begins afterwards until it leaves through its own last frame. Tie: acceptor models queueBars / relieved / lastPriority; monitor on frames (hidden while parked, in the next cycle after the hand-over or after a late Add, with the predecessor's priority, predecessor not drawn again); generator creates successors before and after the hand-over, several per predecessor, chains. Defects D7a (late successor) and D7b (second successor) were found by directed witnesses, are fixed in /repo (b0086b9) and their witnesses run first from corpus/C17.", "0.3 (D7), 0.7, 7 (C17)"),
  "C18": (CONT, "Theorems in Props/C18.v: next pop priority at the shutdown-1 flush, rows counted and bar retired at shutdown-2, never drawn again, popped rows persist on the line terminal, pop priorities monotone, no-pop bars keep their place, rows in priority order. Tie: acceptor checks popCount / pop priorities; monitor replays the output on a line-level terminal (every popped bar on screen exactly once, final, above live bars, in finishing order).", "0.7, 7 (C18)"),
  "C19": ("Coq theorems over the proxy model (transparency, Close forwarding, fast path iff, bytes accounted = capped sum for every chunking, every sample delivered) + differential correspondence on scripted readers/writers + independent monitor",
          "Props/C19.v; 1500 scripted cases per quick run over all 16 shapes of wrapped value x ewma depth x total class.", "7 (C19)"),
